@@ -3,11 +3,11 @@ use std::sync::{Arc, Mutex};
 
 use crate::exception::ExceptionCode;
 use crate::server::{WriteCoils, WriteRegisters};
+use crate::types::*;
 // under the verification feature, locking a handler goes through the scheduling seam wherever
 // `rodbus::server::*` is imported
 #[cfg(feature = "verif-hooks")]
 pub use crate::verif::sync::LockExt;
-use crate::types::*;
 
 /// Trait implemented by the user to process requests received from the client
 ///
